@@ -2,7 +2,21 @@ from ...utils import assert_is_instance
 from ..system import Environment, System
 
 
-class Asset:
+class _AssetType(type):
+    '''Registers a non-transitory Asset with the active System once its
+    constructor, including the constructors of all subclasses, has
+    finished. If the simulation is already running the System then
+    initializes a fully constructed object.
+    '''
+
+    def __call__(cls, *args, **kwargs):
+        new_asset = super().__call__(*args, **kwargs)
+        if not new_asset._is_transitory:
+            System.add_asset(new_asset)
+        return new_asset
+
+
+class Asset(metaclass = _AssetType):
     '''Base class to be used for all simulated assets in production.
 
     Arguments
@@ -32,11 +46,10 @@ class Asset:
         self._env = None
         self._value = self._initial_value = value
         self._value_history = []
-
-        if is_transitory == False:
-            # Will trigger initialize(env) to be called if simulation is
-            # already in progress.
-            System.add_asset(self)
+        # Non-transitory Assets are registered with the System by
+        # _AssetType when construction is complete, which will trigger
+        # initialize(env) if simulation is already in progress.
+        self._is_transitory = is_transitory
 
     def initialize(self, env):
         '''Prepare Asset for simulation and reset attributes to
